@@ -108,8 +108,15 @@ def program(draw, nmax=8, kinds=('call', 'await', 'map', 'amap', 'wait'), immedi
     if shutdown:
         lm = sorted({0, T, fdur, T + fdur, t, t + T, t + T + fdur})
         sd = max(0.0, draw(st.sampled_from(lm)) + draw(st.sampled_from([0, U, -U, T / 2, fdur / 2 if fdur else U])))
-    return {'T': T, 'form': draw(st.sampled_from(['direct', 'direct', 'deco-opts'])), 'fdur': fdur, 'fails': fails,
-            'prog': prog, 'foreign': foreign, 'shutdown': sd}
+    out = {'T': T, 'form': draw(st.sampled_from(['direct', 'direct', 'deco-opts'])), 'fdur': fdur, 'fails': fails,
+           'prog': prog, 'foreign': foreign, 'shutdown': sd}
+    if shutdown:
+        waits = [o['at'] for o in prog if o['op'] == 'wait']
+        if waits and draw(st.integers(0, 2)) == 0:
+            # main returns in the very instant a wait() is in progress, some loop iterations into it
+            out['shutdown'] = draw(st.sampled_from(waits))
+            out['shutdown_iters'] = draw(st.integers(1, 6))
+    return out
 
 
 def with_schedule(prog_strategy, threads):
@@ -157,6 +164,8 @@ def valid(case):
             if not all(ok_op(o, True) for o in fp):
                 return False
         if case.get('shutdown') is not None and (case['shutdown'] < 0 or case.get('foreign')):
+            return False
+        if not (0 <= case.get('shutdown_iters', 0) <= 8):
             return False
         return case.get('form', 'direct') in ('direct', 'deco-opts')
     except (KeyError, TypeError, IndexError):
